@@ -521,9 +521,9 @@ class Forcing(BaseForce):
             for name in self.extra_forcing:
                 self.fields[name] = self._read_field(name, step)
             # self.force_particles(X, Y)
-        else:
-            if step - 1 in self.steps:  # Need new fields
-                i = self.steps.index(step - 1)
+            # Need new fields to interpolate towards the next forcing time
+            i = self.steps.index(step)
+            if i + 1 < len(self.steps):
                 nextstep = self.steps[i + 1]
                 stepdiff = self.stepdiff[i]
                 self.fields["u_new"], self.fields["v_new"] = self._read_velocity(
@@ -541,8 +541,11 @@ class Forcing(BaseForce):
                 # if interpolate_extra_forcing_in_time:
                 #    for name in self.extra_forcing:
                 #        self["d" + name] = (self[name + "new"] - self[name]) / stepdiff
+            else:  # Last forcing time, nothing to interpolate towards
+                self.fields["dU"] = 0 * self.fields["dU"]
+                self.fields["dV"] = 0 * self.fields["dV"]
 
-            # "Ordinary" time step (including self.steps+1)
+        else:  # "Ordinary" time step between forcing times
             if interpolate_velocity_in_time:
                 self.fields["u"] += self.fields["dU"]
                 self.fields["v"] += self.fields["dV"]
